@@ -71,6 +71,13 @@ PROPS = {
              "EIRP: all 256 index bytes, +-3 ulp around every table entry, random float32 bit patterns, infinities, NaN, denormals",
              trusted=["gps hook VerifLeapTable", "time.Time arithmetic modelled as integer nanoseconds (no saturation inside 1678..2262)", "IEEE-754 binary64 division modelled exactly on integers (LW.fdivCeil), validated against Go on every payload-symbol op"],
              exhaustive_parts=["payload-symbol count: payload 0..255 x SF 5..12 x CR 1..4 x header x LDRO", "all 256 EIRP index bytes", "thorough: full airtime product"]),
+    "C18": P("for every (package, direction, CID) of the four regenerated registries: in-width values of the payload type (3 in 4; boundary values forced 1 in 4) and full-Go-domain values (1 in 4), each encoded (Size + MarshalBinary) and sent through Commands encode->decode; "
+             "EXHAUSTIVE for the 11 single-byte payload types (all in-width values, all 256 wire bytes); raw Command decodes at every length 0..Size+7; commands without payload and unknown CIDs 0..11 in both directions; payloads under a foreign CID; "
+             "sequences of 2..6 commands per package and direction (rest-consuming / exact-length payloads mostly last, 1 in 6 in the middle; 1 in 12 out-of-width); raw command streams; random and NIST-vector keys x multicast addresses",
+             trusted=["encoding/binary modelled as little-endian arithmetic", "crypto/aes modelled by an arbitrary block cipher in the theorem; the driver's executable AES-128 is compared with it on every mckeys op",
+                      "payload decoders are modelled on a fresh receiver (what Command.UnmarshalBinary constructs); DevUpgradeImageAns.nextFirmwareVersion (unexported) is set by the harness through reflect/unsafe",
+                      "LW/Spec/App.lean: field widths of TS003/TS004/TS005/TS006 and the TS005 key-derivation blocks as remembered (no documents in the sandbox)"],
+             exhaustive_parts=["all in-width values and all 256 wire bytes of the 11 single-byte payload types", "all 4 x 2 x 256 registry keys (regenerated, kernel-compared with the model's registry)"]),
     "C08": P("byte strings of every length 0..256 for each of the 8 MTypes (uniform), uniform strings at the lengths the decoders single out, structure-aware mutations (bit flip, truncate, extend, splice, overwrite, delete) of valid frames of all kinds, "
              "and the full FOptsLen x FPort x payload-length grid; each accepted string is re-encoded by the implementation; non-trivial = accepted",
              exhaustive_parts=["all lengths 0..256 x 8 MTypes (one uniform sample each)", "FOptsLen 0..15 x {no port, port 0, port 1, port 255} x payload 0..2 x 4 data MTypes"]),
@@ -143,6 +150,14 @@ MANIFEST_TEXT = {
              "C20_ceil_exact (exact binary64 model, kernel-evaluated over the whole domain), C20_airtime_formula / _total / _mono, C20_eirp_table + C20_eirp (largest entry not exceeding x, for every float32). Go results are also judged against the spec formulas.",
         note="Trusted: Lean kernel; hooks + dump; the IERS date list and Semtech formula as transcribed; integer model of time.Time; the exact-float model. One genuine defect repaired (leap boundary one second early). sensitivity.go carries no clause and is not modelled.",
         technique="Lean 4 proof (induction over the leap table, kernel evaluation of an exact float model, monotonicity) + differential correspondence"),
+    "C18": dict(
+        text="Lean theorems over the model of all four packages (33 payload types): C18_payload_roundtrip (every in-width value encodes without error to exactly Size() bytes and decodes to itself, also with trailing bytes), "
+             "C18_command_roundtrip (registry lookup included), C18_sequence_roundtrip (any sequence, any length, clocksync / multicastsetup / fragmentation), C18_sequence_roundtrip_partial + C18_sequence_exact_length_counterexample (firmwaremanagement), "
+             "C18_encode_never_panics / C18_sequence_encode_never_panics (ANY value), C18_sequence_decode_total, C18_keys (= TS005 for any cipher), C18_registry_regenerated (registry dumped from /repo = model registry, all 2048 keys). "
+             "Tied to the Go code by differential runs; every Go result is judged against the property directly (size = length, decodes to itself, keys = TS005).",
+        note="Trusted: Lean kernel; field widths / key blocks as transcribed in LW/Spec/App.lean; harness + driver comparison. Three genuine defects repaired (Class-B session masks, delete-image flag, nil dereference). "
+             "Known finding (recorded, not repaired because two pinned tests demand the current behaviour): exact-length firmware requests reject any following command. DataFragment has no length field by specification and must be last.",
+        technique="Lean 4 proof (per-payload decode-encode identities from kernel-decided byte facts, induction over command sequences) + differential correspondence"),
     "C08": dict(
         text="Lean theorems C08_canonical (for ALL byte strings of all lengths: accepted with RFU bits zero => re-encodes to exactly the input) and C08_stable. Tied to the Go decoder/encoder by decode+re-encode runs on uniform and mutated inputs.",
         note="Trusted: Lean kernel; the model of the frame codec. One genuine defect found and repaired (FOpts + FPort 0 + empty FRMPayload accepted but not encodable).",
